@@ -27,6 +27,7 @@ class Ctx:
         self.inputs = {}              # name -> description of fresh input (for counterexample decoding)
         self.nfresh = 0
         self.compact_k = None         # see Interp.to_iter
+        self.opaque_weights = True    # weights as opaque integers (every outcome of the heuristic) or exact
 
     def event(self, g, kind, msg):
         if g != F:
